@@ -136,7 +136,8 @@ class Swarm:
 
 class EnvSim:
     def __init__(self, spec, modes, props, seed=0, tier="quick",
-                 scripted=True, scenario=None, cfg=None, record=False):
+                 scripted=True, scenario=None, cfg=None, record=False,
+                 env=None):
         import nasim
         from nasim.envs import NASimEnv
         self.record = [] if record else None
@@ -162,10 +163,13 @@ class EnvSim:
             except Exception as e:
                 raise SutError("build", e)
         self.layout = Layout(self.cfg)
-        try:
-            self.env = NASimEnv(self.scenario, **self.modes)
-        except Exception as e:
-            raise SutError("construct", e)
+        if env is not None:
+            self.env = env
+        else:
+            try:
+                self.env = NASimEnv(self.scenario, **self.modes)
+            except Exception as e:
+                raise SutError("construct", e)
         self.fully_obs = bool(modes["fully_obs"])
         self.flat_obs = bool(modes["flat_obs"])
         self.table = ActionTable(self.env, self.cfg)
